@@ -25,7 +25,7 @@ RULE = ("committed snapshots of random states (plain / chunked / slab-packed ten
         "read must be the Lean model's tiles; four kinds of paths not in the manifest must raise. Non-trivial: every read; distinct by hash.")
 TRUSTED = ["read pipeline admission (C10_bound_read) for the budget half; who-loads-what view (C07) for rank-qualified lookup",
            "in-place (obj_out) loads into non-contiguous tensors tile along dim 0 (model: flat tiling for fresh/contiguous outputs)"]
-ASSUMPTIONS = ["sharded entries are C08's subject (dense full tensor: C08_dense_full); not generated here"]
+ASSUMPTIONS = ["sharded entries: the value theorem is C08_dense_full; here they are exercised through the real read_object on a 1-rank gloo group"]
 LEVEL_TEXT = ("Lean 4 theorems on the data-plane model: for every committed take, every budget >= 1 and every consumer order, reading "
               "each entry through the tiled reader returns exactly the saved leaf and equals what restore returns (C18_value); every "
               "tile is smaller than budget + one element (C18_tile_size_bound). Tied to the real read_object by comparing values, the "
@@ -42,6 +42,7 @@ def run(ctx: Ctx):
             ctx.notes.append(f"stopped early at snapshot {i}")
             break
         c18_lib.read_cases(ctx, c18_lib.gen_case(ctx.rng), "read_object")
+    c18_lib.sharded_cases(ctx, ctx.n(12, 150))
 
 
 def replay(ctx: Ctx, rec):
